@@ -137,6 +137,8 @@ def run(ctx, idx):
                 w = RL.not_included(dfas[r.name], ref)
                 if w is not None:
                     probs.append("%s(%r) raises ValueError: the token pattern accepts text the builtin rejects" % (n.func.id, w))
+                if n.func.id == "int" and RL.accepts(dfas[r.name], "1" * (RL.INT_MAX_STR_DIGITS + 1)) and not value_error_guarded(fn, n):
+                    probs.append("int() refuses more than %d digits with ValueError (Python >= 3.11) and the %s pattern bounds no length: a long enough digit string escapes the lexer as ValueError instead of a syntax error" % (RL.INT_MAX_STR_DIGITS, r.token))
             if isinstance(n, ast.Call) and isinstance(n.func, ast.Attribute) and n.func.attr == "decode":
                 guarded = False
                 for t in ast.walk(fn):
@@ -283,6 +285,17 @@ def handler_attribute_reads(ctx, idx, rule):
     return n_sites
 
 
+def value_error_guarded(fn, call):
+    """is `call` inside a try whose handler catches ValueError (or wider) and raises SyntaxError?"""
+    for t in ast.walk(fn):
+        if isinstance(t, ast.Try) and any(call is x for b in t.body for x in ast.walk(b)):
+            for h in t.handlers:
+                hs = K.src(h.type) if h.type is not None else ""
+                if ("ValueError" in hs or hs in ("Exception", "")) and any(isinstance(x, ast.Raise) and x.exc is not None and "SyntaxError" in K.src(x.exc) for x in ast.walk(h)):
+                    return True
+    return False
+
+
 def K_const(idx, fi, e):
     try:
         return idx.const(fi.module, e, fi)
@@ -360,6 +373,17 @@ def exception_construct(ctx, idx, rule, only_module=None, floors=True):
                     bad = "missing required argument(s) %s" % [x for x in names[:nreq] if x not in kw][npos:]
                 elif set(names[:npos]) & kw:
                     bad = "argument given twice"
+                if not bad:
+                    # a line number handed over positionally must land in the `lineno` parameter: in a text parameter it is
+                    # later concatenated / joined by __str__ and the error cannot even be printed
+                    for pos_i, a_ in enumerate(n.exc.args):
+                        is_line = (isinstance(a_, ast.Attribute) and a_.attr == "lineno") or (isinstance(a_, ast.Name) and a_.id in ("lineno", "line", "line_number")) \
+                            or (isinstance(a_, ast.Call) and isinstance(a_.func, ast.Attribute) and a_.func.attr == "get" and isinstance(a_.func.value, ast.Attribute) and a_.func.value.attr == "argument_lines")
+                        if is_line and pos_i < len(names) and names[pos_i] != "lineno" and "lineno" in names:
+                            bad = "the line number `%s` is bound to the parameter `%s`, not to `lineno`" % (K.src(a_), names[pos_i])
+                    if bad:
+                        ctx.violate(rule, "%s::construct(%s)" % (K.where(mod, f), r[1].name), mod.rel, n.lineno, "`%s`: %s; the error then carries no line and its text parameter holds an integer, so printing it (str(), the command line's report) raises TypeError" % (K.src(n.exc)[:70], bad))
+                        continue
                 if bad:
                     ctx.violate(rule, "%s::construct(%s)" % (K.where(mod, f), r[1].name), mod.rel, n.lineno, "`%s` cannot be constructed (%s): a TypeError escapes instead of the MPilot error" % (K.src(n.exc)[:70], bad))
                 else:
